@@ -358,6 +358,11 @@ func (s *MemoryEventStore) After(_ context.Context, sessionID, streamID string, 
 		if !ok {
 			return nil, fmt.Errorf("MemoryEventStore.After: unknown stream ID %v in session %q", streamID, sessionID)
 		}
+		if index >= dl.first+len(dl.data)-1 {
+			// Nothing lies after index (which may be as large as math.MaxInt,
+			// for which index+1 below would overflow).
+			return nil, nil
+		}
 		start := (index + 1) - dl.first
 		if start < 0 {
 			return nil, fmt.Errorf("MemoryEventStore.After: index %d, stream ID %v, session %q: %w",
